@@ -1,7 +1,10 @@
 #!/usr/bin/env python3
-"""seeded.py run <name> [--props C03,C19] [--tier quick]
+"""seeded.py run <name> [--props C03,C19] [--tier quick] [--worktree]
 Applies /verif/seeded/<name>/patch.diff to /repo, runs the named property checks (default: the property in
-meta.json), records which checks report a VIOLATION, and always reverts /repo afterwards."""
+meta.json), records which checks report a VIOLATION, and always reverts /repo afterwards.
+With --worktree the change is applied to a scratch git worktree of /repo's HEAD instead (outside /repo and /verif,
+removed afterwards) and the checks are pointed at it with VERIF_REPO / VERIF_BUILD, so /repo itself is never touched
+and other runs that build from /repo are not disturbed."""
 import json, os, subprocess, sys, time
 VERIF = os.path.dirname(os.path.dirname(os.path.abspath(__file__)))
 REPO = "/repo"
@@ -24,11 +27,25 @@ def main():
         if a == "--tier":
             tier = sys.argv[i + 1]
     props = props or meta.get("detect_with") or [meta["property"]]
-    st = sh("git -C %s status --porcelain --untracked-files=no" % REPO).stdout.strip()
-    if st:
-        print("refusing: /repo has local modifications:\n" + st)
-        sys.exit(2)
-    r = sh("git -C %s apply %s" % (REPO, os.path.join(d, "patch.diff")))
+    wt = None
+    env = dict(os.environ)
+    target = REPO
+    if "--worktree" in sys.argv:
+        wt = os.path.join(os.environ.get("TMPDIR", "/tmp"), "seedwt_" + name)
+        sh("git -C %s worktree remove --force %s" % (REPO, wt))
+        r = sh("git -C %s worktree add -f %s HEAD" % (REPO, wt))
+        if r.returncode != 0:
+            print("cannot create worktree:\n" + r.stdout)
+            sys.exit(2)
+        target = wt
+        env["VERIF_REPO"] = wt
+        env["VERIF_BUILD"] = os.path.join(os.environ.get("TMPDIR", "/tmp"), "seedbuild")
+    else:
+        st = sh("git -C %s status --porcelain --untracked-files=no" % REPO).stdout.strip()
+        if st:
+            print("refusing: /repo has local modifications:\n" + st)
+            sys.exit(2)
+    r = sh("git -C %s apply %s" % (target, os.path.join(d, "patch.diff")))
     if r.returncode != 0:
         print("patch does not apply:\n" + r.stdout)
         sys.exit(2)
@@ -38,7 +55,7 @@ def main():
     try:
         for p in props:
             t0 = time.time()
-            r = sh("python3 %s/tools/check.py %s --tier %s --no-evidence" % (VERIF, p, tier), cwd=VERIF)
+            r = sh("python3 %s/tools/check.py %s --tier %s --no-evidence" % (VERIF, p, tier), cwd=VERIF, env=env)
             viol = [l for l in r.stdout.splitlines() if l.startswith("VIOLATION")]
             sigs = [l.strip() for l in r.stdout.splitlines() if l.startswith("  ") and "|" in l and ":" in l][:6]
             results[p] = {"exit": r.returncode, "violations": viol, "signatures": sigs, "wall_s": round(time.time() - t0, 1)}
@@ -46,7 +63,10 @@ def main():
             if "ENGINE-ERROR" in r.stdout or "BUILD-ERROR" in r.stdout:
                 print(r.stdout[-1500:])
     finally:
-        sh("git -C %s checkout -- ." % REPO)
+        if wt:
+            sh("git -C %s worktree remove --force %s" % (REPO, wt))
+        else:
+            sh("git -C %s checkout -- ." % REPO)
     # replay files written while the change was applied belong to the seed, not to the unchanged tree
     import shutil
     dst = os.path.join(d, "replays")
